@@ -394,7 +394,7 @@ func (cs *ContractSet) ResolveApplies() {
 		}
 		for _, fk := range cs.Applies[name] {
 			if _, dup := cs.ByKey[fk]; dup {
-				cs.Errors = append(cs.Errors, "applies: "+fk+" already has a contract")
+				// a direct contract (e.g. of another build variant) takes precedence over the shared one
 				continue
 			}
 			c := *shared
